@@ -153,3 +153,68 @@ Theorem C02_schemes_agree : forall tensor tensor' clip units sizes Kmat u x e,
   unit_fn Simplex tensor clip units sizes Kmat u x == unit_fn Hypercube tensor' clip units sizes Kmat u x.
 Proof. exact L_schemes_agree_edges. Qed.
 Print Assumptions C02_schemes_agree.
+
+(* ================= layer-level statements of the cell clauses (Proofs/LatticeCell.v) ================= *)
+From TFL Require Import Proofs.LatticeCell.
+
+(* convex combination of the CELL's corner values, for the layer function itself.
+   hypercube: any cell c containing the (clipped) point *)
+Theorem C02_hyper_layer_cell_convex : forall tensor clip units sizes Kmat u x c lo hi, sizes <> [] ->
+  ok_input clip sizes x -> in_cell sizes c (eff clip sizes x) ->
+  (forall i, corner_of c i -> lo <= kern sizes Kmat u i /\ kern sizes Kmat u i <= hi) ->
+  lo <= unit_fn Hypercube tensor clip units sizes Kmat u x /\ unit_fn Hypercube tensor clip units sizes Kmat u x <= hi.
+Proof. exact L_hyper_layer_cell_convex. Qed.
+Print Assumptions C02_hyper_layer_cell_convex.
+
+(* simplex: any decomposition z = c + rs of the (clipped) point, i.e. any cell containing it; only the 2^d
+   corners of THAT cell matter (C02_simplex_convex speaks about the whole kernel column) *)
+Theorem C02_simplex_layer_cell_convex : forall tensor clip units sizes Kmat u x c rs lo hi,
+  sizes_ok sizes -> wfK units Kmat u -> ok_input clip sizes x -> dec sizes c rs (eff clip sizes x) ->
+  (forall i, corner_of c i -> lo <= kern sizes Kmat u i /\ kern sizes Kmat u i <= hi) ->
+  lo <= unit_fn Simplex tensor clip units sizes Kmat u x /\ unit_fn Simplex tensor clip units sizes Kmat u x <= hi.
+Proof. exact L_simplex_layer_any_cell_convex. Qed.
+Print Assumptions C02_simplex_layer_cell_convex.
+
+(* continuity across cell boundaries, for the layer function itself.
+   hypercube: on a face shared by the cells c and c' the layer output is the multilinear formula of both *)
+Theorem C02_hyper_layer_continuous : forall tensor clip units sizes Kmat u x c c', sizes <> [] ->
+  ok_input clip sizes x -> in_cell sizes c (eff clip sizes x) -> in_cell sizes c' (eff clip sizes x) ->
+  unit_fn Hypercube tensor clip units sizes Kmat u x == multilin (kern sizes Kmat u) c (eff clip sizes x) /\
+  unit_fn Hypercube tensor clip units sizes Kmat u x == multilin (kern sizes Kmat u) c' (eff clip sizes x).
+Proof. exact L_hyper_layer_continuous. Qed.
+Print Assumptions C02_hyper_layer_continuous.
+
+(* simplex: the layer output is the cell formula of EVERY cell containing the (clipped) point - any number of
+   faces crossed at once (C02_simplex_continuous is the single-face step on the helper scell) *)
+Theorem C02_simplex_layer_continuous : forall tensor clip units sizes Kmat u x c rs,
+  sizes_ok sizes -> wfK units Kmat u -> ok_input clip sizes x -> dec sizes c rs (eff clip sizes x) ->
+  unit_fn Simplex tensor clip units sizes Kmat u x == scell (kern sizes Kmat u) c rs.
+Proof. exact L_simplex_layer_continuous. Qed.
+Print Assumptions C02_simplex_layer_continuous.
+
+(* the cell formulas of two cells containing the same point agree (several faces at once) *)
+Theorem C02_simplex_cells_agree : forall K sizes c rs c' rs' z, dec sizes c rs z -> dec sizes c' rs' z ->
+  scell K c rs == scell K c' rs'.
+Proof. exact scell_dec_unique. Qed.
+Print Assumptions C02_simplex_cells_agree.
+
+(* clip_inputs: the clipping call is the non-clipping call on the point clipped onto the lattice range
+   (any input, in range or not; input form may differ) *)
+Theorem C02_hyper_clip : forall tensor tensor' units sizes Kmat u x, sizes <> [] -> sizes_ok sizes -> length x = length sizes ->
+  unit_fn Hypercube tensor true units sizes Kmat u x == unit_fn Hypercube tensor' false units sizes Kmat u (clip_onto sizes x).
+Proof. exact L_hyper_clip. Qed.
+Print Assumptions C02_hyper_clip.
+
+Theorem C02_simplex_clip : forall tensor tensor' units sizes Kmat u x,
+  unit_fn Simplex tensor true units sizes Kmat u x = unit_fn Simplex tensor' false units sizes Kmat u (clip_onto sizes x).
+Proof. exact L_simplex_clip. Qed.
+Print Assumptions C02_simplex_clip.
+
+(* hypotheses are satisfiable: the point (1/2, 1) of the 2 x 3 example lattice lies on the face between the
+   cells (0,0) and (0,1); both decompositions, their common value, corner bounds of one of the cells *)
+Example C02_ex_two_cells : dec ex_sizes [0; 0]%nat [1#2; 1] [1#2; 1] /\ dec ex_sizes [0; 1]%nat [1#2; 0] [1#2; 1] /\
+  in_cell ex_sizes [0; 0]%nat [1#2; 1] /\ in_cell ex_sizes [0; 1]%nat [1#2; 1] /\
+  unit_fn Simplex true false 2 ex_sizes ex_K 0 [1#2; 1] == 3#2 /\
+  (forall i, corner_of [0; 1]%nat i -> 1 <= kern ex_sizes ex_K 0 i /\ kern ex_sizes ex_K 0 i <= 9#2).
+Proof. destruct ex_two_decs as [A B]. destruct ex_two_cells as [C D]. destruct ex_two_decs_value as [_ [_ E]].
+  repeat split; try assumption; apply ex_corner_bounds; assumption. Qed.
